@@ -45,6 +45,7 @@ from typing import (
 )
 
 from .._dns import DNSPointer, DNSQuestion, DNSQuestionType
+from .._exceptions import NamePartTooLongException
 from .._logger import log
 from .._protocol.outgoing import DNSOutgoing
 from .._record_update import RecordUpdate
@@ -541,7 +542,18 @@ class QueryScheduler:
         outs = generate_service_query(self._zc, now_millis, ready_types, self._multicast, question_type)
         if outs:
             for out in outs:
-                self._zc.async_send(out, self._addr, self._port)
+                try:
+                    self._zc.async_send(out, self._addr, self._port)
+                except NamePartTooLongException:
+                    # A pointer that was received with a label that is not valid
+                    # utf-8 may not fit a label once it has been decoded with
+                    # replacement characters: ask without the known answers
+                    # instead of leaving the scheduler stopped
+                    log.debug("Unable to write the known answers for %s", ready_types)
+                    retry = DNSOutgoing(_FLAGS_QR_QUERY, self._multicast)
+                    for question in out.questions:
+                        retry.add_question(question)
+                    self._zc.async_send(retry, self._addr, self._port)
 
 
 class _ServiceBrowserBase(RecordUpdateListener):
